@@ -384,11 +384,16 @@ def run(ctx):
     for r in list(by_class.values())[:4]:
         cin = r['in']
         want, got = want_got(r)
-        report_spec(r, 'rule %s/%s (%s): the documented precedence gives %s, regal did %s (level_for_rule=%r, ignored_rule=%r, merged level=%r)'
+        lint_part = ''
+        if cin['lint']:
+            lv = sorted({x[2] for x in (r['out']['lint_violations'] or []) if x[0] == cin['cat'] and x[1] == cin['title']})
+            lint_part = '; Linter.Lint reported it at levels %s, DetermineEnabledRules %s it' % (
+                lv or 'none (not reported)', 'lists' if cin['title'] in (r['out']['enabled'] or []) else 'does not list')
+        report_spec(r, 'rule %s/%s (%s): the documented precedence gives %s; main.report did %s (level_for_rule=%r, ignored_rule=%r, merged level=%r)%s'
                     % (cin['cat'], cin['title'], 'custom' if cin['custom'] and cin['cat'] == C_CAT else 'bundled',
                        'disabled' if want is None else 'level ' + str(want),
                        'not report' if got is None else 'report at level %r' % got,
-                       r['out']['level'], r['out']['ignored'], r['out']['go_entry']))
+                       r['out']['level'], r['out']['ignored'], r['out']['go_entry'], lint_part))
     elist_bad = {r['id']: r for r in enabled_bad}
     for i in l3:
         elist_bad.setdefault(lint_cases[i]['id'], lint_cases[i])
